@@ -1,6 +1,7 @@
 (* Run/JudgeC09.v — case type and judge for the C09 correspondence run (single-knee detectors). *)
 From Coq Require Import ZArith List Arith Bool PrimFloat.
-From Knee Require Import Num NumFloat NpList Model.Detectors.
+From Knee Require Import Num NumFloat NpList.
+From Knee Require Export Model.Detectors.
 Import ListNotations.
 
 Notation F := FloatNum.
